@@ -105,7 +105,7 @@ def flag_list_correspondence(ctx, n):
                         pass
                     co.close()
         tid = {id(v): k for k, v in toks.items()}
-        sched = [(w, tid[id(sig)]) for w, sig in loop.log]
+        sched = [(w, tid[id(sig)]) for w, sig in loop.log if id(sig) in tid]   # (not: calls made by finalisers of unrelated garbage)
         wf = [(w, tid[id(sig)]) for w, sig in flag._waiting]
         wi = [(w, tid[id(sig)]) for w, sig in (~flag)._waiting]
         flag._waiting.clear()
@@ -190,7 +190,7 @@ def tracked_list_correspondence(ctx, n):
                         pass
                     co.close()
         tid = {id(x): k for k, x in toks.items()}
-        sched = [(w, tid[id(sig)]) for w, sig in loop.log]
+        sched = [(w, tid[id(sig)]) for w, sig in loop.log if id(sig) in tid]   # (not: calls made by finalisers of unrelated garbage)
         waits = [[(w, tid[id(sig)]) for w, sig in c._waiting] for c in cmps]
         for c in cmps:
             if bool(c) and c._waiting:
@@ -577,8 +577,10 @@ def run(ctx):
     from harness.props import C01
     C01.reused_conditions(ctx, ctx.n(20, 300))
     resource_waiters(ctx, ctx.n(40, 600))
-    flag_list_correspondence(ctx, ctx.n(300, 3000))
-    tracked_list_correspondence(ctx, ctx.n(300, 3000))
+    from harness import watch
+    with watch.quiet_heap():
+        flag_list_correspondence(ctx, ctx.n(300, 3000))
+        tracked_list_correspondence(ctx, ctx.n(300, 3000))
     resource_comparisons(ctx)
 
 
